@@ -3,6 +3,28 @@ use crate::h_melda::*;
 use crate::sym;
 
 /// params: [k orders, staged updates (1..3), commits before (0/1)]
+/// Objects with identical content share one stored payload: creating two of them and removing one again before the
+/// commit must leave the other one durable.
+pub fn shared_payload() {
+    let a = Rep::new();
+    a.m.update(doc_with(&["a"], &["x".to_string()], "t")).expect("update");
+    if sym::any_bool() {
+        a.m.commit(None).expect("commit");
+    }
+    let v = val();
+    let mut o = serde_json::Map::new();
+    o.insert("v".to_string(), serde_json::Value::from(v));
+    a.m.create_object("p", o.clone()).expect("create p");
+    a.m.create_object("q", o.clone()).expect("create q");
+    let _ = a.m.remove_object(if sym::any_bool() { "p" } else { "q" });
+    a.m.commit(None).expect("commit").expect("block");
+    assert!(same_state(&a.reopen(), &a.m), "reopened replica differs from the committing replica");
+    for id in a.m.get_all_objects() {
+        assert!(a.reopen().get_value(&id, None).is_ok(), "a committed object is not readable after reopening");
+    }
+    sym::reach(1);
+}
+
 pub fn commit_reopen() {
     let k = sym::param(0) as usize;
     let n = sym::param(1) as usize;
